@@ -212,9 +212,13 @@ def writers_between(ctx):
                 m = max(m, 2)
             ins = [rng.choice(fields) for _ in range(m)]
             cases.append(eems.Case(cmd, eems.gen_params(rng, cmd, ins, "valid"), ins))
+        # (single-input FuzzyOr / FuzzyAnd hand their input back and limit it in place: for a field holding values outside [-1, 1] - a Normalize or Sum result -
+        # that limiting is not held against them, see DESIGN.md 9.4 "Rerun twin": those cases are evaluated on copies of the fields)
+        def on_the_fields(c):
+            return not (c.cmd in ("FuzzyOr", "FuzzyAnd") and len(c.inputs) == 1)
         before = []
         for c in cases:
-            o = eems.run_impl(c, copy_inputs=False)
+            o = eems.run_impl(c, copy_inputs=not on_the_fields(c))
             orc(c, o, None)
             before.append(o)
         rot = i // len(kinds) % k
@@ -242,7 +246,7 @@ def writers_between(ctx):
         ctx.count("c03_write_between_outcome:" + outcome.split(" ")[0])
         i += 1
         for c, o1 in zip(cases, before):
-            o2 = eems.run_impl(c, copy_inputs=False)
+            o2 = eems.run_impl(c, copy_inputs=not on_the_fields(c))
             desc = dict(eems.Case(c.cmd, c.params, [snaps[[id(f) for f in fields].index(id(a))] for a in c.inputs]).describe(),
                         sequence="%d fields written with %s (%s) in the order %r, the command evaluated over the same fields before and after" % (k, kind, outcome, order),
                         fields=["f%d: %s; missing cells %r" % (j, origin[j], numpy.ma.getmaskarray(snaps[j]).astype(int).ravel().tolist()) for j in range(k)],
